@@ -6,7 +6,7 @@ From Coq Require Import List NArith ZArith Bool.
 From GoPdf.Base Require Import Bytes.
 From GoPdf.C02 Require Import Obj Writer.
 From GoPdf.Base Require Import Res.
-From GoPdf.C02 Require Import Dec Syntax Stored Expect.
+From GoPdf.C02 Require Import Dec Syntax Stored Expect Reader.
 From GoPdf.C03 Require Import PSyntax Validate ValidateProofs ModelWriter.
 Import ListNotations.
 Open Scope N_scope.
@@ -213,6 +213,48 @@ Theorem validate_strict_refines :
     validate orc f = VOk d /\ boundaries_ok f d = true.
 Proof. exact validate_strict_sound. Qed.
 Print Assumptions validate_strict_refines.
+
+(* ================= strict is contained in lenient ================= *)
+
+(* The statement (not proved; the two sides are compared on every file of every run instead: the
+   harness asks go-pdf's Reader and the extracted validator for the same references of the same file):
+   what the strict validator accepts, the model reader of C02 - run with the validator's own object
+   parser as its parser, without decryption, and with filter decoders that agree with the oracle table
+   on the bodies the validator looked up - opens, and it answers every reference as the validator's
+   document does.  Two side conditions keep the statement true of the models as they are: the file
+   is not encrypted, and no comment stands between the parts of an object (the validator skips
+   comments wherever white space may stand, as the specification says; the model reader's skip_ws
+   does not - go-pdf's scanner does -, so a file with such a comment is accepted by the validator and
+   would be refused by the *model* reader). *)
+Definition entry_of_x (e : xentry) : Writer.entry :=
+  match e with
+  | XFree _ g => Writer.EFree g
+  | XUse off g => Writer.EUse off g
+  | XComp s i => Writer.EComp s i
+  end.
+
+Definition strict_subset_lenient_full : Prop :=
+  forall (fdec : bytes -> dict -> bytes -> option bytes) (orc : list (bytes * bytes)) (f : bytes) (d : vdoc),
+    validate orc f = VOk d ->
+    d_encrypted d = false ->
+    (forall i, (15 <= i)%nat -> nth_error f i <> Some 37) ->
+    (forall sd body data, payload orc false sd body = Some data ->
+                          decode_chain fdec (filter_chain sd) body = Some data) ->
+    exists rs,
+      Reader.open vvalue (fun _ _ s => s) fdec false f = Ok rs /\
+      rversion rs = d_version d /\
+      (forall n, xlookup n (rxref rs) = option_map entry_of_x (nth_error (d_entries d) (N.to_nat n))) /\
+      (forall o, In o (d_objects d) ->
+         get vvalue (fun _ _ s => s) (fun _ _ s => s) fdec false 4 rs (o_num o) (o_gen o) =
+         Ok (match o_body o with
+             | BObj v => RObj v
+             | BStream sd boff len => RStream (dict_del n_Length sd) (sub boff len f)
+             end)) /\
+      (forall n s i v, In (n, s, i, v) (d_members d) ->
+         get vvalue (fun _ _ s => s) (fun _ _ s => s) fdec false 4 rs n 0 = Ok (RObj v)) /\
+      (forall n g, (forall o, In o (d_objects d) -> o_num o = n -> o_gen o <> g) ->
+                   (forall s i v, ~ In (n, s, i, v) (d_members d) \/ g <> 0) ->
+         get vvalue (fun _ _ s => s) (fun _ _ s => s) fdec false 4 rs n g = Ok RNull).
 
 (* ================= validate_model_writer ================= *)
 
